@@ -5,6 +5,11 @@ VERIF = os.path.dirname(os.path.dirname(os.path.abspath(__file__)))
 
 # id -> (category, technique, level text, level note, design ref)
 CHECKS = {
+ "C17": ("exploration",
+         "runtime monitoring: encoding-independence monitor (model equality of load(file in encoding e) against load_from_string of the decoded text), Latin-1 fallback oracle, panic monitor on corrupted byte strings",
+         "Generated documents with non-ASCII, astral and combining characters in strings and comments are written in the ten encodings (UTF-8, UTF-16LE/BE, UTF-32LE/BE, each with and without BOM) with trailing padding so that the byte length reaches every residue mod 4 the encoding permits, loaded from the file and compared with the model of the decoded text; Latin-1 files (single bytes >= 0x80, including byte pairs that are well-formed UTF-8 in front of an invalid byte) must load as the text whose code points are the bytes; truncated, bit-flipped, surrogate-injected and random byte strings must not panic. 500 / 15 000 documents x 10 encodings x paddings.",
+         "trusts: the harness encoder; first character ASCII as the format requires",
+         "DESIGN.md section 3 C17"),
  "C10": ("exploration",
          "runtime monitoring: reference-graph safety / completeness / idempotence monitor for cleanup() (typed reference extraction at every site before and after, protected-kind fingerprints, second run)",
          "Generated modules with consistent reference graphs (chains and cycles among SUB_GROUP / SUB_FUNCTION / REF_UNIT, helpers referenced only from STATUS_STRING_REF, typedef AXIS_DESCR, INSTANCE OVERWRITE, S_REC_LAYOUT, USER_RIGHTS, TYPEDEF_AXIS) plus knobs (unused helpers and helper chains, dangling references, empty groups/functions incl. parents that become empty) are cleaned up; protected kinds must survive with unchanged non-reference content, no resolving reference may be removed or lose its target (references to GROUP/FUNCTION may be pruned together with an empty target), no COMPU_METHOD / table / UNIT / RECORD_LAYOUT may survive unreferenced, a second cleanup must change nothing, and a consistent file must stay free of dangling references. 4 000 / 100 000 modules.",
